@@ -800,6 +800,10 @@ func (f Frame) evalBool(v ssa.Value, p Path, depth int) (t, fs Set, known bool) 
 		if a, ok := f.Atom(x, true); ok {
 			return full.Intersect(a), full.Intersect(a.Complement()), true
 		}
+		// a three-way comparison tested against zero: cmp.Compare(a, b) < 0, cmp.Or(…) < 0
+		if t, fs, ok := f.threeWayTest(x); ok {
+			return full.Intersect(t), full.Intersect(fs), true
+		}
 		// an operand that is a per-clause variable: what it is on this path
 		switch x.Op {
 		case token.LSS, token.LEQ, token.GTR, token.GEQ, token.EQL, token.NEQ:
@@ -823,6 +827,80 @@ func (f Frame) evalBool(v ssa.Value, p Path, depth int) (t, fs Set, known bool) 
 		}
 	}
 	return full, full, false
+}
+
+// threeWay: where a three-way comparison is negative, zero and positive, as sets of the
+// subject. cmp.Compare / strings.Compare / bytes.Compare over the subject and a term mean
+// <, ==, >; over anything else every outcome is possible. cmp.Or(c1, c2, …) is the first
+// non-zero ci: negative where c1 is, or where c1 is zero and the rest is negative.
+func (f Frame) threeWay(v ssa.Value, depth int) (neg, zero, pos Set, ok bool) {
+	full := f.full()
+	call, isCall := v.(*ssa.Call)
+	if !isCall || depth > 4 {
+		return nil, nil, nil, false
+	}
+	switch CalleeName(&call.Call) {
+	case "cmp.Compare", "strings.Compare", "bytes.Compare":
+		if len(call.Call.Args) != 2 {
+			return nil, nil, nil, false
+		}
+		a, b := call.Call.Args[0], call.Call.Args[1]
+		n, ok1 := f.atomOps(token.LSS, a, b, true)
+		if !ok1 {
+			return full, full, full, true
+		}
+		z, _ := f.atomOps(token.EQL, a, b, true)
+		p, _ := f.atomOps(token.GTR, a, b, true)
+		return n, z, p, true
+	case "cmp.Or":
+		if len(call.Call.Args) != 1 {
+			return nil, nil, nil, false
+		}
+		elems, okv := VariadicElems(call.Call.Args[0])
+		if !okv || len(elems) == 0 {
+			return nil, nil, nil, false
+		}
+		neg, zero, pos = Empty(), full, Empty()
+		for i := len(elems) - 1; i >= 0; i-- {
+			n, z, p, ok1 := f.threeWay(elems[i], depth+1)
+			if !ok1 {
+				return nil, nil, nil, false
+			}
+			neg, zero, pos = n.Union(z.Intersect(neg)), z.Intersect(zero), p.Union(z.Intersect(pos))
+		}
+		return neg, zero, pos, true
+	}
+	return nil, nil, nil, false
+}
+
+// threeWayTest: `three-way op 0` (or `0 op three-way`): where it may hold and where it may fail.
+func (f Frame) threeWayTest(b *ssa.BinOp) (t, fs Set, ok bool) {
+	op, x := b.Op, b.X
+	if k, isK := ConstInt(b.Y); !isK || k != 0 {
+		if k2, isK2 := ConstInt(b.X); !isK2 || k2 != 0 {
+			return nil, nil, false
+		}
+		op, x = flip(b.Op), b.Y
+	}
+	n, z, p, ok := f.threeWay(x, 0)
+	if !ok {
+		return nil, nil, false
+	}
+	switch op {
+	case token.LSS:
+		return n, z.Union(p), true
+	case token.LEQ:
+		return n.Union(z), p, true
+	case token.GTR:
+		return p, n.Union(z), true
+	case token.GEQ:
+		return p.Union(z), n, true
+	case token.EQL:
+		return z, n.Union(p), true
+	case token.NEQ:
+		return n.Union(p), z, true
+	}
+	return nil, nil, false
 }
 
 var purePred = map[*ssa.Function]int{} // 1 pure, 2 not
